@@ -16,6 +16,7 @@ from mc.common import reset_frame_state, replay_via
 
 ID = 'C15'
 LEVEL = 'exploration'
+PRELOAD = ['frame.geometry.geometry', 'frame.netlist.netlist', 'frame.die.die', 'frame.allocation.allocation', 'ruamel.yaml', 'mc.common', 'tools.floorset_parser.floor_set_manager.utils.utils', 'numpy']
 RULE = ("all 0/1 matrices of all shapes with rows*cols <= 14 plus all 4x4, 3x5 and 5x3 matrices (quick) / rows*cols <= 20 (thorough); vertex lists of all "
         "simple single-trunk polygons on grids <= 3x4 x 3 coordinate families x 2 orientations x every start vertex x {open, closed} x {Point, numpy}. "
         "Non-trivial = matrices with >= 2 one-cells that are not a full rectangle (a decomposition question arises); distinct by construction.")
